@@ -1,15 +1,18 @@
 // Package c15: maps are persistent dictionaries – correct lookups, snapshots never change.
 //
 // (a) correspondence: random histories of Set/Delete/Clear/Mutable/Immutable on real
-//     types.Map objects (a small key set built to collide) against Uniflow.MapHeap driven by the
-//     same lines; after every step the receiver, the result and every retained snapshot are
-//     re-read in full (Range order dump, Len, sorted Keys) and probed with Get/Has.
+//
+//	types.Map objects (a small key set built to collide) against Uniflow.MapHeap driven by the
+//	same lines; after every step the receiver, the result and every retained snapshot are
+//	re-read in full (Range order dump, Len, sorted Keys) and probed with Get/Has.
+//
 // (b) property oracle, independent of the model: a reference dictionary keyed by types.Equal
-//     per Go map object (association list; a mutable map and the immutable views made by
-//     Immutable() share one until the mutable map is cleared) is compared with
-//     Get/Has/Len/Keys/Values/Pairs/Range of every live handle after every step, and every
-//     immutable map is compared with its own earlier dump after any operation on a map
-//     derived from it.
+//
+//	per Go map object (association list; a mutable map and the immutable views made by
+//	Immutable() share one until the mutable map is cleared) is compared with
+//	Get/Has/Len/Keys/Values/Pairs/Range of every live handle after every step, and every
+//	immutable map is compared with its own earlier dump after any operation on a map
+//	derived from it.
 package c15
 
 import (
@@ -76,6 +79,21 @@ func (d *dict) del(k types.Value) {
 	}
 }
 func (d *dict) clone() *dict { return &dict{ps: append([][2]types.Value{}, d.ps...)} }
+
+// sameAs reports whether two reference dictionaries hold the same keys (by Equal) with Equal values;
+// a key holding nil is a key.
+func (d *dict) sameAs(o *dict) bool {
+	if len(d.ps) != len(o.ps) {
+		return false
+	}
+	for _, p := range d.ps {
+		i := o.find(p[0])
+		if i < 0 || !types.Equal(o.ps[i][1], p[1]) {
+			return false
+		}
+	}
+	return true
+}
 
 type handle struct {
 	m    types.Map
@@ -321,6 +339,10 @@ func (r *run) sequence(rng *lib.RNG, steps int) {
 				d = &dict{}
 			}
 			if same {
+				// an immutable map may return itself only when the operation changes nothing
+				if !d.sameAs(h.ref()) {
+					r.fail("shortcut-changes-nothing", fmt.Sprintf("%s on an immutable map returned the receiver although the reference dictionary changes", line))
+				}
 				cell = h.cell
 			} else {
 				cell = newCell(d)
@@ -439,6 +461,9 @@ func corpus(r *run, path string) {
 					d = &dict{}
 				}
 				if same {
+					if !d.sameAs(h.ref()) {
+						r.fail("shortcut-changes-nothing", fmt.Sprintf("%s on an immutable map returned the receiver although the reference dictionary changes", ln))
+					}
 					cell = h.cell
 				} else {
 					cell = newCell(d)
